@@ -184,6 +184,33 @@ def mb_reader_rules(ck, P):
     bodies = [b for b in P.bodies if "::mbtiles::reader::MBTilesReader" in b["q"] and "::tests::" not in b["q"]]
     if not ck.anchor("R-MB-READ", "MBTilesReader methods", bodies, 5):
         return
+    # the queries name only what the MBTiles specification guarantees: the table / view `tiles` with zoom_level, tile_column, tile_row,
+    # tile_data and the table `metadata` with name, value.  Index names, the map / images tables behind a tiles VIEW, rowid ... are
+    # choices of the encoder: a query that depends on them (INDEXED BY tile_index) cannot even be prepared on another valid file.
+    SPEC_WORDS = {"select", "from", "where", "and", "or", "not", "min", "max", "count", "distinct", "order", "by", "asc", "desc", "limit", "group", "as", "is", "null", "in", "between",
+                  "tiles", "metadata", "zoom_level", "tile_column", "tile_row", "tile_data", "name", "value"}
+    n_sql, off = 0, []
+    for b in bodies:
+        cand = [(str(y.get("v")), y) for y in ir.walk_nodes(b["body"]) if y.get("k") == "lit" and y.get("lk") == "str"]
+        for y in ir.walk_nodes(b["body"]):
+            src = y.get("src", "")
+            if src.startswith("format!("):
+                # the format string is the first string literal of the macro call (the snippet may be cut: an unterminated one is taken to its end)
+                m_ = _re.match(r'format!\(\s*r?#*"((?:[^"\\]|\\.)*)"?', src, _re.S)
+                if m_:
+                    cand.append((m_.group(1), y))
+        for v_, y in cand:
+            if _re.search(r"\b(SELECT|FROM|WHERE)\b", v_, _re.I):
+                n_sql += 1
+                txt = _re.sub(r"\{[^}]*\}", " ", v_)          # format placeholders
+                txt = _re.sub(r"'[^']*'", " ", txt)                      # string constants
+                for w in _re.findall(r"[A-Za-z_][A-Za-z_0-9]*", txt):
+                    if w.lower() not in SPEC_WORDS:
+                        off.append((w, ir.loc(y)))
+    ck.anchor("R-MB-READ", "SQL texts of the MBTiles reader", n_sql, 4)
+    ck.check(not off, "R-MB-READ", "MBTilesReader|sql-objects", "the reader's queries use only the tables and columns of the MBTiles specification (tiles / metadata and their columns)",
+             "a query of the MBTiles reader names `%s`, which the specification does not guarantee: a valid file written by another encoder (tiles as a view, an index of another name or none) is refused" %
+             sorted({w for w, _ in off})[:4], off[0][1] if off else None)
     n_get, bad = 0, []
     for b in bodies:
         sqls = []
